@@ -56,7 +56,9 @@ fn dual_rule(op: &str, u: f64, du: f64, v: f64, dv: f64) -> (f64, f64) {
         "mul" => (u * v, (du * v) + (u * dv)),
         "div" => (u / v, ((du * v) - (u * dv)) / (v * v)),
         "pow" => (u.powf(v), (du * v * u.powf(v - 1.0)) + (dv * u.powf(v) * u.ln())),
-        "neg" => (0.0 - u, 0.0 - du),
+        // the plain computation; a zero result is compared without its sign (see c04::f64_compare):
+        // Trace computes `Trace::zero() - self`
+        "neg" => (-u, -du),
         "sin" => (u.sin(), du * u.cos()),
         "cos" => (u.cos(), -du * u.sin()),
         "exp" => (u.exp(), du * u.exp()),
@@ -144,7 +146,7 @@ fn f64_line_trace(toks: &[&str]) -> String {
     let (x, y) = (parse_bits(toks[5]), parse_bits(toks[6]));
     let via = opt_arg("via", toks).unwrap_or("ref_ref");
     match f64_run_trace(op, pairing, x, y, via) {
-        Ok(got) => f64_compare(got, f64_expect_trace(op, pairing, x, y)),
+        Ok(got) => f64_compare(got, f64_expect_trace(op, pairing, x, y), op == "neg"),
         Err(k) => panic_str(k),
     }
 }
